@@ -189,6 +189,14 @@ pub fn build_world_with_gap(coin: &'static refmodel::coins::Coin, chain: &[Block
         w.extra.push(Extra::Symlink("blk00778.dat".into(), "blk00555.dat".into()));
         w.extra.push(Extra::Symlink("blk00779.dat".into(), ".".into()));
         w.extra.push(Extra::Symlink("blk00780.dat".into(), "blk00780.dat".into()));
+        // names that contain a real blk file's name: the prefix or the extension written twice (what a careless copy or
+        // rename script leaves behind), for every file number the index names
+        for (fno, name, _) in &l.files {
+            let base = name.clone().unwrap_or_else(|| format!("blk{:05}.dat", fno));
+            w.extra.push(Extra::File(format!("{}.dat", base), vec![0xfa; 100]));
+            w.extra.push(Extra::File(format!("blk{}", base), vec![0xfa; 100]));
+            w.extra.push(Extra::File(format!("blk{}.dat", base), vec![0xfa; 100]));
+        }
     }
     w
 }
